@@ -56,6 +56,7 @@ type vfConn struct {
 	writes    []vfWrite
 	nWrites   int
 	readCalls []time.Duration // instants of ReadFrom calls
+	retAt     time.Duration   // set by the harness: instant the reader returned
 	closedUse int             // reads/writes after the harness marked the conn dead
 
 	// scripted behaviour of the n-th WriteTo (0 = first)
